@@ -47,8 +47,8 @@ static void check_listing(econf_file *kf, const e2_model *m, const char *sig, co
   if (gi != nw && !mc_case_failed) mc_fail(sig, "%s: section '%s' is missing from econf_getGroups; %s", when, want[gi], sig);
   econf_freeArray(groups);
   /* keys per section, in insertion order */
-  const char *secs[8] = { NULL, "", "A", "B", "C", "E", "Z" };
-  for (int si = 0; si < 7 && !mc_case_failed; si++) {
+  const char *secs[9] = { NULL, "", "A", "B", "C", "E", "Z", "AB" };
+  for (int si = 0; si < 8 && !mc_case_failed; si++) {
     const char *cs = e2_canon_sec(secs[si]);
     const char *wk[64]; int nk = 0;
     for (int j = 0; j < m->n; j++) if (cs ? (m->e[j].has_g && !strcmp(m->e[j].g, cs)) : !m->e[j].has_g) wk[nk++] = m->e[j].k;
@@ -72,9 +72,9 @@ static void check_listing(econf_file *kf, const e2_model *m, const char *sig, co
 
 static void check_gets(econf_file *kf, e2_model *m, const char *sig, const char *when)
 {
-  const char *secs[8] = { NULL, "", "A", "[A]", "B", "[B]", "C", "Z" };
-  const char *keys[6] = { "x", "y", "z", "p8", "q" };
-  for (int si = 0; si < 8; si++) for (int ki = 0; ki < 5 && !mc_case_failed; ki++) {
+  const char *secs[10] = { NULL, "", "A", "[A]", "B", "[B]", "C", "Z", "AB", "[AB]" };
+  const char *keys[7] = { "x", "y", "z", "p8", "q", "xy" };
+  for (int si = 0; si < 10; si++) for (int ki = 0; ki < 6 && !mc_case_failed; ki++) {
     e2_ent *e = e2m_find(m, e2_canon_sec(secs[si]), keys[ki]);
     char *v = (char *)(uintptr_t)0x30;
     econf_err rc = econf_getStringValue(kf, secs[si], keys[ki], &v);
